@@ -485,7 +485,7 @@ func (ip *Interp) makeSlice(fr *frame, instr *ssa.MakeSlice) Value {
 		return s
 	}
 	n, c := int(lenT.Val), int(capT.Val)
-	if c > 1<<22 {
+	if c > 1<<24 {
 		ip.oom("concrete make of %d elements", c)
 	}
 	return ip.newSlice(et, n, c)
